@@ -28,7 +28,8 @@ type Module struct {
 	FuncByKey map[string]*ssa.Function // key -> function
 	keyOf     map[*ssa.Function]string
 
-	cha *chaIndex
+	cha   *chaIndex
+	sites *siteIndex
 }
 
 // Load type-checks and builds SSA for all packages under dir. Any load or type error is fatal for the caller.
@@ -94,6 +95,7 @@ func Load(dir string, overlay map[string][]byte) (*Module, error) {
 	}
 	m.enumerate()
 	m.cha = buildCHA(m)
+	loaded = append(loaded, m)
 	return m, nil
 }
 
